@@ -6,10 +6,13 @@
 import Driver.C01
 import Driver.Hist
 import Driver.C18
+import Driver.C17
+import Driver.C11
+import Driver.C20
 open MongoModel.Wire
 
 def handlers : List (List String → Option (List String)) :=
-  [Driver.handleC01, Driver.handleHist, Driver.handleC18]
+  [Driver.handleC01, Driver.handleHist, Driver.handleC18, Driver.handleC17, Driver.handleC11, Driver.handleC20]
 
 def handle (ts : List String) : List String :=
   match handlers.findSome? (· ts) with
